@@ -1,5 +1,22 @@
 from engine import Query
-META = {}
+META = {
+ 'functions': ['Value::Stringify(Stream_T&, precision) / stringifyArray / stringifyObject / stringifyValue (Value.hpp:1929-2075) on the real Value<char>',
+               'Value::Stringify(precision) through the real StringStream<char> (3 shapes)', 'JSONUtils::Escape as called for keys and strings',
+               'Digit::NumberToString for integers below 100', 'JSON::Parse / parseValue / parseArray / parseObject (round-trip queries)',
+               'Value constructors, operator[](key|index), operator+=, Remove, RemoveIndex, AddPointerToValue, SetPointerToValue, ~Value used to build the trees'],
+ 'bounds': 'array and object roots (and a pointer to them) with 0..2 members; member kinds concrete per query: never-written slot, removed member (also as LAST member), '
+           'null, true, false, unsigned < 100, signed in (-100,100), String of 0..2 units with ALL unit values (compared with JSONUtils::Escape), nested [] / [n] / {} / {"a":n}, '
+           'pointer to number / string; object keys from {"", "a", "b", "ab", one quote character}; precision 17; one arbitrary unit already in the stream. '
+           'Asserted: the appended text equals the model text unit by unit (members in order, Undefined/removed members omitted), stream prefix untouched, '
+           'first/last unit are the brackets, the unit before the closing bracket is not a comma. '
+           'roundtrip: for member kinds with concrete text (literals, nested empty containers, omitted members) Parse(Stringify(v)) has the same kind, member count, '
+           'members in order and equal, and stringify-parse-stringify is the identical text. scalar-root: a non-container root writes nothing (as ValueTest.hpp:75 fixes).',
+ 'outside': 'trees with more than 2 members or deeper than 2; numbers >= 100, reals (number formatting is C10/C11); strings longer than 2 units (Escape alone: C08 part (a), <= 6 units); '
+            'round trip through the parser for number and string members (text layout becomes symbolic; no verdict in 200 s); the String-returning Stringify() overload beyond 3 shapes; '
+            'char16_t / char32_t values',
+ 'assumptions': ['FixedStream<char,40> stand-in for the Stream_T template parameter (overflow flag asserted false)',
+                 'the model text for strings and keys is produced by the real JSONUtils::Escape (its own correctness is C08 part (a))'],
+}
 H = 'C08_stringify.cpp'
 B = {'Hash|find|generateHash|resize|Remove|remove': 8, 'Dispose': 4, 'Copy': 80, 'SetToZero': 80, 'vf_mem.*': 80, 'Count': 4, 'Escape': 3, 'Write': 8, 'IntToString': 3, 'h_.*|add_member|exp_uint': 4,
      'Initialize': 4, 'stringifyArray': 4}
@@ -45,7 +62,7 @@ def queries(tier):
         return Query(name, H, 'h_roundtrip', {'N': n, 'E1': e1, 'E2': e2, 'RT_OBJ': obj, 'K1': k1, 'K2': k2, 'LEN': ln}, bounds=BR, default_unwind=4,
                      rec_bounds={'parse.*': 3}, default_rec=3, timeout=300, mem_gb=8, leak=True)
     qs += [QR(0), QR(0, obj=1)]
-    for e1, e2 in ((10, 8), (0, 9), (3, 20), (20, 0), (3, 3), (2, 10), (5, 10), (10, 5), (6, 5), (4, 10), (21, 31)):
+    for e1, e2 in ((10, 8), (0, 9), (3, 20), (20, 0), (3, 3), (2, 10), (9, 2)):   # literal and empty-container members only (see META)
         qs.append(QR(2, e1, e2)); qs.append(QR(2, e1, e2, obj=1))
-    qs.append(QR(2, 5, 20, obj=1, k1=4, k2=0))
+    qs.append(QR(2, 8, 20, obj=1, k1=4, k2=0))
     return qs
